@@ -151,6 +151,10 @@ func exec(in string) string {
 			a := !slices.Equal(wa.backing, as1) || !slices.Equal(wb.backing, bs1)
 			out = nl + " " + shown + " m" + tr.B(m) + " a" + tr.B(a)
 		case "I", "N":
+			if typedMode(f[1]) {
+				out = typedLIS(f[0] == "I", f[1], tr.UnInts(f[2]))
+				break
+			}
 			pre, spare := parseWin(f, 3)
 			wv := mkWindow(tr.UnInts(f[2]), pre, spare)
 			vs := wv.w
@@ -186,6 +190,71 @@ func exec(in string) string {
 		return p
 	}
 	return out
+}
+
+// ---- typed modes: slice.LIS / slice.LNDS (the cmp.Ordered wrappers) on element types and values
+// the int-coded modes cannot express.  The trace carries small codes; code order = value order
+// under cmp.Compare, so the driver compares codes.
+//
+//	b  []int     {MinInt, MinInt+1, -2, -1, 0, 1, 2, MaxInt-1, MaxInt}   (differences overflow int)
+//	h  []int8    {-128, -127, -1, 0, 1, 126, 127}
+//	f  []float64 {NaN, -Inf, -1.5, 0, 1.5, +Inf}   (cmp.Compare puts NaN first and equal to itself)
+//	s  []string  {"", "0", "00", "1", "a", "ab", "b"}
+var extInt = []int{math.MinInt, math.MinInt + 1, -2, -1, 0, 1, 2, math.MaxInt - 1, math.MaxInt}
+var extInt8 = []int8{-128, -127, -1, 0, 1, 126, 127}
+var extFloat = []float64{math.NaN(), math.Inf(-1), -1.5, 0, 1.5, math.Inf(1)}
+var extString = []string{"", "0", "00", "1", "a", "ab", "b"}
+
+func typedMode(m string) bool { return m == "b" || m == "h" || m == "f" || m == "s" }
+
+func typedCodes(m string) int {
+	switch m {
+	case "b":
+		return len(extInt)
+	case "h":
+		return len(extInt8)
+	case "f":
+		return len(extFloat)
+	}
+	return len(extString)
+}
+
+func typedRun[T cmp.Ordered](strict bool, table []T, codes []int) string {
+	vs := make([]T, len(codes))
+	for i, c := range codes {
+		vs[i] = table[c]
+	}
+	in := slices.Clone(vs)
+	var res []T
+	if strict {
+		res = slice.LIS(vs)
+	} else {
+		res = slice.LNDS(vs)
+	}
+	same := func(a, b T) bool { return cmp.Compare(a, b) == 0 }
+	m := !slices.EqualFunc(vs, in, same)
+	back := make([]int, len(res))
+	for i, r := range res {
+		back[i] = -1
+		for c, t := range table {
+			if same(t, r) {
+				back[i] = c
+			}
+		}
+	}
+	return tr.Ints(back) + " m" + tr.B(m) + " a0"
+}
+
+func typedLIS(strict bool, mode string, codes []int) string {
+	switch mode {
+	case "b":
+		return typedRun(strict, extInt, codes)
+	case "h":
+		return typedRun(strict, extInt8, codes)
+	case "f":
+		return typedRun(strict, extFloat, codes)
+	}
+	return typedRun(strict, extString, codes)
 }
 
 // allLists calls f with every list over keys 0..k-1 of length 0..n.
@@ -455,6 +524,25 @@ func main() {
 					}
 				} else {
 					emitLIS(g, mode, ks, withPayload(ks, 0), "lis-random")
+				}
+			}
+			// ---- LIS / LNDS wrappers on other element types and on extreme values (typed modes)
+			for _, mode := range []string{"b", "h", "f", "s"} {
+				k := typedCodes(mode)
+				allLists(k, g.Scale(3, 4), func(ks []int) {
+					nt, tags := lisTags(ks)
+					g.Emit("I "+mode+" "+tr.Ints(ks), nt, append(tags, "lis-typed-"+mode, "lis-typed-exhaustive")...)
+					g.Emit("N "+mode+" "+tr.Ints(ks), nt, append(tags, "lis-typed-"+mode)...)
+				})
+				for i := 0; i < g.Scale(150, 4000); i++ {
+					n := g.R.Range(5, 40)
+					ks := make([]int, n)
+					for j := range ks {
+						ks[j] = g.R.Intn(k)
+					}
+					nt, tags := lisTags(ks)
+					g.Emit("I "+mode+" "+tr.Ints(ks), nt, append(tags, "lis-typed-"+mode)...)
+					g.Emit("N "+mode+" "+tr.Ints(ks), nt, append(tags, "lis-typed-"+mode)...)
 				}
 			}
 		})
